@@ -48,6 +48,11 @@ Invalid == {
   QG(Cmp("=", H, Val(":a")), HV),                                                              \* table key on an index
   QG(And(Cmp("=", Path("g"), Val(":a")), Cmp("=", R, Val(":b"))), [AB EXCEPT ![":a"] = S1(112)])
 }
+\* the same questions asked of a FOLLOW-UP page: a request that carries an ExclusiveStartKey is checked like any other
+EskB == [h |-> S1(97), r |-> S1(49)]
+EskOf(q) == IF ~q.index.some THEN EskB ELSE IF q.index.n = "gsx" THEN EskB @@ [g |-> S1(112), s |-> S1(49)] ELSE EskB @@ [g |-> S1(112)]
+WithEsk(q) == [q EXCEPT !.esk = [some |-> TRUE, k |-> EskOf(q)]]
+Paged == { WithEsk(q) : q \in Valid \cup Invalid }
 \* two faults in one request - a table that does not exist AND a placeholder no expression uses: whichever is reported, both clients
 \* report the same
 Faulty == { UpdC("c1", "tblx", K(97, 49), SetU("v", Val(":n")), NoCond, <<>>, [n \in {":n", ":unused"} |-> S1(49)], FALSE),
@@ -70,6 +75,6 @@ Req2(t, x) == [t |-> t, put |-> [some |-> TRUE, i |-> x], del |-> [some |-> FALS
 Spread == { BW([i \in 1..(2 * n) |-> Req2(IF i <= n THEN T1 ELSE T2, KeyN(i))]) : n \in {12, 13} }
 SetupDef == << AddTable("c1", T1, "h", "r"), AddTable("c1", T2, "h", "r"), AddIndex("c1", T1, "gsx", "g", "s"), AddIndex("c1", T1, "gix", "g", ""),
                Put(T1, K(97, 49)), Put(T1, K(97, 50)), Put(T1, K(98, 49)) >>
-MenuDef == SetToSeq(Valid) \o SetToSeq(Invalid) \o SetToSeq(Faulty) \o SetToSeq(Batches) \o SetToSeq(Spread)
+MenuDef == SetToSeq(Valid) \o SetToSeq(Invalid) \o SetToSeq(Paged) \o SetToSeq(Faulty) \o SetToSeq(Batches) \o SetToSeq(Spread)
 BoundDef(d) == Cardinality(d["c1"].tables[T1].items) <= 3 /\ Cardinality(d["c1"].tables[T2].items) = 0
 =============================================================================
